@@ -88,7 +88,8 @@ def item_bytes(item, expected_name):
     if ty == HELLO_RESP:
         exp_ = expected_name or "dev"
         # p: the expected name extended, q: a strict prefix of it, c: the expected name in another case - all different names
-        name = {"e": "", "x": exp_, "o": "other-device", "p": exp_ + "2", "q": exp_[:-1], "c": exp_.upper()}[nk]
+        name = {"e": "", "x": exp_, "o": "other-device", "p": exp_ + "2", "q": exp_[:-1], "c": exp_.upper(),
+                "l": "another-device-whose-name-is-longer-than-thirty-one-characters"}[nk]
         m = pb.HelloResponse(api_version_major=major, api_version_minor=10, name=name)
     elif ty == CONNECT_RESP:
         m = pb.ConnectResponse(invalid_password=bool(invpw))
